@@ -17,7 +17,6 @@ import (
 	"fmt"
 
 	"github.com/sarchlab/mgpusim/v4/amd/insts"
-
 )
 
 type histUse struct {
@@ -84,63 +83,88 @@ func historyPass(report func(sig, msg string, c any), cov map[string]any) {
 		CDNA3  bool   `json:"is_cdna3"`
 		First  string `json:"decoded_first"`
 		Second string `json:"decoded_second"`
-		Code   int    `json:"inline_constant_code"`
+		Code   int    `json:"source_operand_code"`
 	}
 	pairs, skipped, checks := 0, 0, 0
-	code := 129 // 128 (constant 0) is what ordinary code uses most; every pair gets a code of its own
 	var sample any
 	alphabet := map[string]string{} // template -> what the decoder under test calls it
-	for _, cdna3 := range []bool{false, true} {
-		a, b := insts.NewDisassembler(), insts.NewDisassembler()
-		a.IsCDNA3, b.IsCDNA3 = cdna3, cdna3
-		for _, u1 := range histUses {
-			for _, u2 := range histUses {
-				c := code
-				code++
-				if code > 208 {
-					code = 129 // (not reached with 6 uses x 2 flags = 72 pairs)
-				}
-				buf := func(u histUse) []byte {
-					out := make([]byte, 8)
-					binary.LittleEndian.PutUint32(out, u.word|uint32(c))
-					return out
-				}
-				pc := pairCase{"history", cdna3, u1.name, u2.name, c}
-				o1 := safeDecode(a, buf(u1))
-				if o1.kind != kOK {
-					skipped++
-					continue
-				}
-				snap := snapOf(o1.inst)
-				alphabet[fmt.Sprintf("%s (IsCDNA3=%v)", u1.name, cdna3)] = snap.name
-				o2 := safeDecode(a, buf(u2))
-				if o2.kind != kOK {
-					skipped++
-					continue
-				}
-				pairs++
-				if sample == nil {
-					sample = map[string]any{"pair": pc, "first_decodes_as": snap.name, "second_decodes_as": o2.inst.InstName}
-				}
-				where := fmt.Sprintf("IsCDNA3=%v, inline constant code %d: after decoding \"%s\" (%s), then \"%s\" (%s)", cdna3, c, u1.name, snap.name, u2.name, o2.inst.InstName)
-				checks++
-				if d := diffSnap(o1.inst, snap); d != "" {
-					report("history/returned-instruction-changed-by-a-later-decode", where+": the instruction object returned by the first call now has "+d, pc)
-				}
-				fresh := insts.NewDisassembler()
-				fresh.IsCDNA3 = cdna3
-				for _, dd := range []struct {
-					what string
-					d    *insts.Disassembler
-				}{{"the same decoder", a}, {"a second decoder instance", b}, {"a decoder created afterwards", fresh}} {
-					checks++
-					o := safeDecode(dd.d, buf(u1))
-					if o.kind != kOK {
-						report("history/decode-outcome-depends-on-earlier-decodes", where+": decoding the first bytes again on "+dd.what+" no longer succeeds", pc)
+	// operand families: the source operand C of every use is taken from one family; every ordered pair gets a code of
+	// its own (an inline constant, an even scalar register >= s4, an even vector register, an inline float), so that
+	// state kept per operand code is clean when the pair starts
+	vop := []histUse{histUses[2], histUses[3], histUses[5]}
+	type family struct {
+		name  string
+		codes []int
+		uses  []histUse
+		flags []bool
+	}
+	seq := func(lo, hi, step int) (out []int) {
+		for c := lo; c <= hi; c += step {
+			out = append(out, c)
+		}
+		return out
+	}
+	families := []family{
+		{"inline integer", seq(129, 208, 1), histUses, []bool{false, true}},
+		{"scalar register", seq(4, 100, 2), histUses, []bool{false}},
+		{"vector register", seq(256+4, 256+254, 2), vop, []bool{false, true}},
+		{"inline float", seq(240, 248, 1), vop, []bool{false}},
+	}
+	for _, fam := range families {
+		next := 0
+		for _, cdna3 := range fam.flags {
+			a, b := insts.NewDisassembler(), insts.NewDisassembler()
+			a.IsCDNA3, b.IsCDNA3 = cdna3, cdna3
+			for _, u1 := range fam.uses {
+				for _, u2 := range fam.uses {
+					if next >= len(fam.codes) {
+						skipped++ // no unused code left in this family
 						continue
 					}
-					if d := diffSnap(o.inst, snap); d != "" {
-						report("history/decode-result-depends-on-earlier-decodes", where+": decoding the first bytes again on "+dd.what+" gives "+d, pc)
+					c := fam.codes[next]
+					next++
+					buf := func(u histUse) []byte {
+						out := make([]byte, 8)
+						binary.LittleEndian.PutUint32(out, u.word|uint32(c))
+						return out
+					}
+					pc := pairCase{"history", cdna3, u1.name, u2.name, c}
+					o1 := safeDecode(a, buf(u1))
+					if o1.kind != kOK {
+						skipped++
+						continue
+					}
+					snap := snapOf(o1.inst)
+					alphabet[fmt.Sprintf("%s, C = %s (IsCDNA3=%v)", u1.name, fam.name, cdna3)] = snap.name
+					o2 := safeDecode(a, buf(u2))
+					if o2.kind != kOK {
+						skipped++
+						continue
+					}
+					pairs++
+					if sample == nil {
+						sample = map[string]any{"pair": pc, "first_decodes_as": snap.name, "second_decodes_as": o2.inst.InstName}
+					}
+					where := fmt.Sprintf("IsCDNA3=%v, source operand code %d (%s): after decoding \"%s\" (%s), then \"%s\" (%s)", cdna3, c, fam.name, u1.name, snap.name, u2.name, o2.inst.InstName)
+					checks++
+					if d := diffSnap(o1.inst, snap); d != "" {
+						report("history/returned-instruction-changed-by-a-later-decode", where+": the instruction object returned by the first call now has "+d, pc)
+					}
+					fresh := insts.NewDisassembler()
+					fresh.IsCDNA3 = cdna3
+					for _, dd := range []struct {
+						what string
+						d    *insts.Disassembler
+					}{{"the same decoder", a}, {"a second decoder instance", b}, {"a decoder created afterwards", fresh}} {
+						checks++
+						o := safeDecode(dd.d, buf(u1))
+						if o.kind != kOK {
+							report("history/decode-outcome-depends-on-earlier-decodes", where+": decoding the first bytes again on "+dd.what+" no longer succeeds", pc)
+							continue
+						}
+						if d := diffSnap(o.inst, snap); d != "" {
+							report("history/decode-result-depends-on-earlier-decodes", where+": decoding the first bytes again on "+dd.what+" gives "+d, pc)
+						}
 					}
 				}
 			}
